@@ -534,11 +534,13 @@ class Inliner:
                 if a is not None and b is not None:
                     return ast.copy_location(ast.IfExp(test=st.test, body=a, orelse=b), st)
             return None
-        if len(body) >= 2 and isinstance(body[-2], ast.If) and not body[-2].orelse and isinstance(body[-1], ast.Return):
-            # guard clause: if c: return A ; return B
+        while len(body) >= 2 and isinstance(body[-2], ast.If) and not body[-2].orelse and as_expr(body[-1]) is not None:
+            # guard clause: if c: return A ; <rest that returns B>
             g = body[-2]
-            if len(g.body) == 1 and isinstance(g.body[0], ast.Return):
+            if len(g.body) == 1 and isinstance(g.body[0], ast.Return) and g.body[0].value is not None:
                 body = body[:-2] + [ast.copy_location(ast.If(test=g.test, body=g.body, orelse=[body[-1]]), g)]
+            else:
+                break
         if body and isinstance(body[-1], ast.If):
             e = as_expr(body[-1])
             if e is not None:
@@ -1024,6 +1026,46 @@ def _forward_loop_flags(fn):
     return changed[0]
 
 
+class _SplitTupleAssign(ast.NodeTransformer):
+    """N7: a, b = x, y  ->  a = x; b = y   (through temporaries when a later value reads an
+    earlier target)."""
+
+    def visit_Assign(self, node):
+        if len(node.targets) != 1:
+            return node
+        t, v = node.targets[0], node.value
+        if not (isinstance(t, (ast.Tuple, ast.List)) and isinstance(v, (ast.Tuple, ast.List)) and
+                len(t.elts) == len(v.elts) and len(t.elts) > 1 and
+                all(isinstance(x, ast.Name) for x in t.elts) and
+                not any(isinstance(x, ast.Starred) for x in v.elts)):
+            return node
+        names = [x.id for x in t.elts]
+        if len(set(names)) != len(names):
+            return node
+        clash = False
+        for j, val in enumerate(v.elts):
+            used = {x.id for x in ast.walk(val) if isinstance(x, ast.Name)}
+            if used & set(names[:j]):
+                clash = True
+        out = []
+        if clash:
+            tmps = [_fresh(n) for n in names]
+            for tmp, val in zip(tmps, v.elts):
+                out.append(ast.copy_location(ast.Assign(targets=[ast.Name(id=tmp, ctx=ast.Store())], value=val,
+                                                        type_comment=None), node))
+            for n, tmp in zip(names, tmps):
+                out.append(ast.copy_location(ast.Assign(targets=[ast.Name(id=n, ctx=ast.Store())],
+                                                        value=ast.Name(id=tmp, ctx=ast.Load()), type_comment=None), node))
+        else:
+            for n, val in zip(names, v.elts):
+                out.append(ast.copy_location(ast.Assign(targets=[ast.Name(id=n, ctx=ast.Store())], value=val,
+                                                        type_comment=None), node))
+        return out
+
+    def visit_Lambda(self, node):
+        return node
+
+
 def _closures(fn):
     """N9: local helper closures of `fn` -- nested defs and `name = lambda ...` bound exactly once.
     A call of a closure evaluates its body with the enclosing variables as they are at the call
@@ -1108,6 +1150,7 @@ def normalize_module(tree, no_inline, all_classes=None):
                     _FoldConst().visit(fn)
                 else:
                     break
+            _SplitTupleAssign().visit(fn)
             _forward_process_temps(fn)
             _forward_flags(fn)
             _forward_loop_flags(fn)
